@@ -40,6 +40,7 @@ Proof.
   - simp_eqs. cbn in *. exact D.
   - destruct (stat (sw s) (tp_src p)) as [n|] eqn:Hsrc; simp_eqs. cbn [cp_input cp_dest cp_mode] in *.
     destruct (stat (sw s') (tp_dest p)) as [[c' m'| |]|]; try discriminate D.
+    cbn [keep_mode_ok] in *. rewrite andb_true_r in *.
     apply andb_true_iff in D as [D1 D2]. rewrite D1. cbn [andb want_mode]. rewrite Hsrc.
     cbn [want_mode] in D2.
     assert (Hl : is_link (Some n) = false).
